@@ -90,6 +90,15 @@ Proof.
     rewrite seq_nth by exact Hn. reflexivity.
 Qed.
 
+(* ---- the text form of a key --------------------------------------------------- *)
+Lemma hex_roundtrip : forall b, Forall (fun x => 0 <= x) b -> hex_dec (hex_enc b) = b.
+Proof.
+  induction 1 as [|x b Hx _ IH]; [reflexivity|]. cbn [hex_enc hex_dec map] in *. rewrite IH. f_equal.
+  destruct (x <? 16) eqn:E.
+  - apply Z.ltb_lt in E. rewrite Z.mod_small by lia. lia.
+  - pose proof (Z.div_mod x 16). lia.
+Qed.
+
 (* ---- the share ------------------------------------------------------------- *)
 Lemma fill_shared_length : forall old bytes,
   length old = share_size -> length (fill_shared old bytes) = share_size.
